@@ -67,6 +67,9 @@ def concatenate (d b : Data κ α) (dim : String) : Except Err (Data κ α) :=
   else do
     let b' ← b.reorder d.dims
     let ax := d.index dim
+    -- numpy.concatenate: same rank, same extents off the axis
+    if eraseAt b'.values.shape ax ≠ eraseAt d.values.shape ax then .error .value
+    else
     .ok { d with values := concatAxis d.values b'.values ax,
                  coords := setAt d.coords ax (d.coord dim ++ b'.coord dim) }
 
